@@ -27,7 +27,8 @@ EXCS = ("SerialException", "PortNotOpenError", "SerialTimeoutException", "OSErro
         "InterruptedError", "BrokenPipeError")
 PRIM_PROFILE = Profile(write_exc=EXCS, read_exc=EXCS, latency=(0, 1, 24, 25, 26),
                        content=("bare", "nocomma", "echo", "commapay", "spacepay", "tabpay", "wrong",
-                                "shifted", "err", "nameerr", "sibling", "cut", "longerr"),
+                                "shifted", "err", "nameerr", "sibling", "cut", "longerr", "jsonish",
+                                "lonebrace"),
                        silent=True,
                        read_window=4, late={25, 26},
                        # the reads to wait through may be bare line ends instead of nothing
@@ -35,7 +36,8 @@ PRIM_PROFILE = Profile(write_exc=EXCS, read_exc=EXCS, latency=(0, 1, 24, 25, 26)
 METH_PROFILE = Profile(write_exc=("SerialException", "OSError"),
                        read_exc=("SerialException", "PortNotOpenError", "OSError"),
                        latency=(0, 1, 25, 26),
-                       content=("wrong", "shifted", "err", "nameerr", "sibling", "cut", "longerr"),
+                       content=("wrong", "shifted", "err", "nameerr", "sibling", "cut", "longerr",
+                                "jsonish", "lonebrace"),
                        silent=True, read_window=2)
 # reboot()/bootload() write to the port themselves and contain the pyserial exception family
 # only; pyserial wraps OS-level failures of write() into SerialException, so a bare OSError is
@@ -56,7 +58,8 @@ REQUESTS = ["V", "v", "R", "QG", "QM", "S2,0,4", "C,1,2", "SM,10,1,1", "  SM,10,
             "L3," + ",".join(["-123456789"] * 11) + ",1234"]
 assert [len(r.strip()) for r in REQUESTS[-4:]] == [63, 64, 65, 128]
 EXEMPT = ("rb", "r", "bl")              # I/O exceptions deliberately ignored (board leaves the bus)
-FAILING_CONTENT = ("wrong", "shifted", "err", "nameerr", "sibling", "cut", "longerr")
+FAILING_CONTENT = ("wrong", "shifted", "err", "nameerr", "sibling", "cut", "longerr", "jsonish",
+                   "lonebrace")
 
 
 def ref_name(request):
@@ -355,8 +358,8 @@ def run(ctx):
     # "waits through up to 25 empty reads" is an allowance per request: a long session on one
     # object against a board that answers every request after one (three) empty reads
     from .c06 import slow_session          # pylint: disable=import-outside-toplevel
-    for stall in (1, 2):
-        for length in (30, 70):
+    for stall in (1, 2, 3):
+        for length in ((30, 70) if stall < 3 else (9,)):
             for msg in slow_session("ebb3", stall, length):
                 part.violation(f"slow_session:ebb3:{stall}:{length}", msg,
                                {"kind": "slow_session", "layer": "ebb3", "stall": stall,
